@@ -20,7 +20,8 @@ RULE = (
     "(class names, argument values, statement structure) counted with a hash set.  Every batch additionally contains the "
     "EXHAUSTIVE enumeration of the two-level nesting space: 94 representative constructor calls (every exported class, "
     "every field) as outer block x the same 94 as inner block x {no exception, exception in the inner body, exception "
-    "(Exception or BaseException) in the outer body after the inner block closed} = 26508 programs "
+    "(Exception or BaseException) in the outer body after the inner block closed, inner block entered while warnings "
+    "are errors} = 35344 programs "
     "(probe enumerated_two_level_program)"
 )
 STUBBED = [
@@ -326,7 +327,10 @@ def gen_block(rng, cfg, depth):
         if k == "with":
             ni = core.weighted_choice(rng, [(1, 6), (2, 3), (3, 1)])
             items = [gen_item(rng, cfg["names"], cfg["bad_ctor"]) for _ in range(ni)]
-            stmts.append(["with", items, gen_block(rng, cfg, depth + 1)])
+            w = ["with", items, gen_block(rng, cfg, depth + 1)]
+            if cfg.get("werror") and rng.random() < 0.3:
+                w.append(True)
+            stmts.append(w)
         elif k == "obs":
             stmts.append(["obs"])
         elif k == "raise":
@@ -369,29 +373,32 @@ _ENUM = {}
 
 def enum_program(index):
     """Exhaustive enumeration of the two-level nesting space: outer item x inner item x exception placement.
-    placement 0: no exception; 1: raised in the inner body; 2: raised in the outer body after the inner block closed."""
+    placement 0: no exception; 1: raised in the inner body; 2: raised in the outer body after the inner block closed;
+    3: the inner block is entered while warnings are errors (an __enter__ that warns raises)."""
     if "items" not in _ENUM:
         _ENUM["items"] = enum_items()
     items = _ENUM["items"]
     n = len(items)
-    total = n * n * 3
+    total = n * n * 4
     if index >= total:
         return None
-    place, rest = index % 3, index // 3
+    place, rest = index % 4, index // 4
     inner, outer = items[rest % n], items[rest // n]
     if place == 0:
         body = [["with", [inner], [["obs"]]], ["obs"]]
     elif place == 1:
         body = [["try", [["with", [inner], [["raise", "exc"]]]]], ["obs"]]
-    else:
+    elif place == 2:
         body = [["with", [inner], [["obs"]]], ["raise", "base" if (rest % 2) else "exc"]]
+    else:  # the inner block is entered while warnings are errors
+        body = [["try", [["with", [inner], [["obs"]], True]]], ["obs"]]
     return [["with", [outer], body], ["obs"]]
 
 
 def enum_size():
     if "items" not in _ENUM:
         _ENUM["items"] = enum_items()
-    return len(_ENUM["items"]) ** 2 * 3
+    return len(_ENUM["items"]) ** 2 * 4
 
 
 def generate(rng, tier, index):
@@ -430,6 +437,7 @@ def generate(rng, tier, index):
         "lib_w": rng.choice([0.5, 1.5]),
         "lib_kinds": rng.sample(LIBCALLS, rng.randint(1, len(LIBCALLS))),
         "lib_fault_p": rng.choice([0.3, 0.7, 1.0]),
+        "werror": rng.random() < 0.3,
     }
     ops = gen_block(rng, cfg, 0)
     if forced is not None:
@@ -600,6 +608,7 @@ class _Interp:
                 raise
 
     def body(self, items, stmts):
+        warnings.simplefilter("ignore")
         self.enter(items[-1])
         self.check("enter")
         self.block(stmts)
@@ -621,7 +630,9 @@ class _Interp:
         elif k == "try":
             try:
                 self.block(s[1])
-            except (SimError, SimAbort, SimFault, ValueError):
+            except (SimError, SimAbort, SimFault, ValueError, Warning) as e:
+                if isinstance(e, Warning):
+                    self.out.stats["fault:entry_raised_warning_as_error"] += 1
                 self.check("caught")
         elif k == "lib":
             try:
@@ -640,9 +651,15 @@ class _Interp:
             items, stmts = s[1], s[2]
             d0 = len(self.stack)
             why = "normal"
+            werror = len(s) > 3 and bool(s[3])
             try:
                 with warnings.catch_warnings():
                     warnings.simplefilter("ignore")
+                    if werror:
+                        # fault: warnings are errors while the block is being ENTERED (python -W error, pytest filterwarnings=error):
+                        # an __enter__ that warns raises; body() switches the filter back before the body runs
+                        warnings.simplefilter("error", DeprecationWarning)
+                        self.out.stats["probe:with_entered_under_warnings_as_errors"] += 1
                     if len(items) == 1:
                         with self.mk(items, 0):
                             self.body(items, stmts)
@@ -697,7 +714,9 @@ def execute(history):
         it.top = i
         try:
             it.stmt(s)
-        except (SimError, SimAbort, SimFault, ValueError):
+        except (SimError, SimAbort, SimFault, ValueError, Warning) as e:
+            if isinstance(e, Warning):
+                out.stats["fault:entry_raised_warning_as_error"] += 1
             it.check("caught_top")
     it.top = len(ops)
     if it.stack:
@@ -733,7 +752,7 @@ def render(history):
             lines.append(ind + "pass")
         for s in b:
             if s[0] == "with":
-                lines.append(ind + "with " + ", ".join(_fmt_item(i) for i in s[1]) + ":")
+                lines.append(ind + "with " + ", ".join(_fmt_item(i) for i in s[1]) + ":" + ("   # entered under warnings.simplefilter('error', DeprecationWarning)" if len(s) > 3 and s[3] else ""))
                 rec(s[2], ind + "    ")
             elif s[0] == "try":
                 lines.append(ind + "try:")
@@ -765,18 +784,18 @@ def simplify(history):
                 # fewer items
                 if len(s[1]) > 1:
                     for j in range(len(s[1])):
-                        yield b[:i] + [["with", s[1][:j] + s[1][j + 1 :], s[2]]] + b[i + 1 :]
+                        yield b[:i] + [["with", s[1][:j] + s[1][j + 1 :], s[2]] + s[3:]] + b[i + 1 :]
                 # fewer args
                 for j, (n, a) in enumerate(s[1]):
                     for key in list(a):
                         if key == "value":
                             continue
                         a2 = {k: v for k, v in a.items() if k != key}
-                        yield b[:i] + [["with", s[1][:j] + [[n, a2]] + s[1][j + 1 :], s[2]]] + b[i + 1 :]
+                        yield b[:i] + [["with", s[1][:j] + [[n, a2]] + s[1][j + 1 :], s[2]] + s[3:]] + b[i + 1 :]
                 for v in variants(s[2]):
-                    yield b[:i] + [["with", s[1], v]] + b[i + 1 :]
+                    yield b[:i] + [["with", s[1], v] + s[3:]] + b[i + 1 :]
                 if s[2]:
-                    yield b[:i] + [["with", s[1], []]] + b[i + 1 :]
+                    yield b[:i] + [["with", s[1], []] + s[3:]] + b[i + 1 :]
             elif s[0] == "try":
                 yield b[:i] + s[1] + b[i + 1 :]
                 for v in variants(s[1]):
